@@ -34,9 +34,28 @@ class Ledger:
             par = ix.parent[m['name']]
             self.site_of_machine[m['name']] = ('%s.%s' % (par[0], m['name'])) if par else ('.%s' % m['name'])
         self.total_states = sum(len(m['states']) for m in ix.order)
+        self.soft = None
+
+    SOFT_RULES = ('is-state-active', 'visitor-', 'flag-or', 'flag-and')
 
     def rej(self, tags, rule, exp, got, pos):
-        raise LedgerReject(tags, rule, exp, got if isinstance(got, str) else (got.raw if got is not None else 'END'), pos)
+        got = got if isinstance(got, str) else (got.raw if got is not None else 'END')
+        if self.soft is not None and rule.startswith(self.SOFT_RULES):
+            # the introspection answers of one snapshot are independent observations: judge all of them, so that
+            # a wrong is_state_active answer (C03) does not hide a wrong flag answer (C17) in the same snapshot
+            self.soft.append((set(tags), rule, exp, got, pos))
+            return
+        raise LedgerReject(tags, rule, exp, got, pos)
+
+    def flush_soft(self):
+        soft, self.soft = self.soft, None
+        if soft:
+            tags = set().union(*[x[0] for x in soft])
+            first = soft[0]
+            rule = first[1] if len(soft) == 1 else first[1] + ' (+%s)' % ','.join(sorted(set(x[1] for x in soft[1:])))
+            e = LedgerReject(tags, rule, first[2], first[3], first[4])
+            e.all = soft
+            raise e
 
     def run(self, recs):
         inst = {}          # tag -> {site: active?}
@@ -185,6 +204,16 @@ class Ledger:
         for p, regs in cfg.items():
             for lst in regs:
                 self.seen_active.add(p.split('/')[-1] + '.' + lst[0])
+        self.soft = []
+        try:
+            self.check_introspection(cfg, levels, extras, pos)
+        finally:
+            if self.soft is not None and not self.soft:
+                self.soft = None
+        if self.soft is not None:
+            self.flush_soft()
+
+    def check_introspection(self, cfg, levels, extras, pos):
         # is_state_active<S> for every S (backmp11)
         if 'ACT' in extras:
             got = set(x for x in extras['ACT'].split(',') if x)
